@@ -80,8 +80,9 @@ Definition f_keyed (f : flat) : list (list (Z * Z)) :=
   let cs := f_chunks f in
   map (fun '(c, ids) => combine (map e_gid c) ids) (combine cs (number_chunks 0 cs)).
 
+(* at least one chunk and at least one entry; single chunks may be empty (an empty table is a legal stream element) *)
 Definition chunks_wellformed (f : flat) : bool :=
-  negb (len (f_chunks f) =? 0) && forallb (fun c => negb (len c =? 0)) (f_chunks f).
+  negb (len (f_chunks f) =? 0) && negb (len (f_data f) =? 0).
 
 Definition hist_edges_ok (k lo hi : Z) (edges : list ratio) : bool :=
   (len edges =? k + 1)
@@ -122,7 +123,7 @@ Fixpoint ids_of_sizes (from : Z) (sizes : list Z) : list (list Z) :=
   | s :: r => arange_from from (Z.to_nat s) :: ids_of_sizes (from + s) r
   end.
 Definition rechunk_wellformed (r : rechunk) : bool :=
-  negb (len (r_sizes r) =? 0) && forallb (fun s => 1 <=? s) (r_sizes r)
+  negb (len (r_sizes r) =? 0) && forallb (fun s => 0 <=? s) (r_sizes r)
   && forallb (fun '(n, _) => 1 <=? n) (r_entries r) && forallb (fun '(n, _) => 1 <=? n) (r_lines r).
 Definition rechunk_spec_ok (r : rechunk) : bool :=
   let ids := arange (sumZ (r_sizes r)) in
